@@ -1,3 +1,17 @@
-#!/bin/sh
-# builds the framework offline; extended as engines are added
-exit 0
+#!/bin/bash
+# Builds the framework offline from files on disk only: Lean packages (+ model drivers), the Rust
+# harness crate (path deps on /repo's crates), and the xvc binary the binary-level harnesses drive.
+set -u
+export RUSTUP_TOOLCHAIN=1.96.0 CARGO_NET_OFFLINE=true
+cd "$(dirname "$0")"
+rc=0
+for p in lean/*/; do
+  [ -f "$p/lakefile.toml" ] || continue
+  (cd "$p" && lake build 2>&1 | tail -3) || rc=1
+  exes=$(grep -A1 '^\[\[lean_exe\]\]' "$p/lakefile.toml" | grep '^name' | sed 's/.*"\(.*\)"/\1/')
+  for e in $exes; do (cd "$p" && lake build "$e" 2>&1 | tail -1) || rc=1; done
+done
+cp /repo/Cargo.lock harness/Cargo.lock 2>/dev/null
+(cd harness && cargo build --offline 2>&1 | tail -2) || rc=1
+(cd /repo && cargo build --offline -p xvc --bin xvc 2>&1 | tail -2) || rc=1
+exit $rc
